@@ -1359,6 +1359,13 @@ class IH5StoreEngine:
                 viol.append(v)
             except SimRunaway as e:
                 viol.append({"prop": "C01", "oracle": "no-progress", "detail": str(e), "shape": "runaway", "step": len(log)})
+            except env.HarnessError:
+                raise
+            except Exception as e:
+                v = env.sut_exception_violation(e, case.get("prop", "C01"), len(log))
+                if v is None:
+                    raise
+                viol.append(v)
         finally:
             w.shutdown()
         kinds = [o["op"] for o in case["ops"]]
